@@ -169,6 +169,8 @@ def validation_lines(result):
             if k == "envFailWrites":
                 # a connection born with a failing first write: the environment label follows the block that opened it
                 late_labels.append("vl envFailWrites %d %d" % (e[1], e[2]))
+            elif k == "envPause":
+                late_labels.append("vl envPause %d %d" % (e[1], e[2]))
             elif k == "apiSend":
                 _, sid, t0, exp, retries, ok = e
                 cls = "apiSend:%d:%d:%d:%d" % (sid, retries, exp - t0, ok)
